@@ -746,6 +746,14 @@ func restoreGroupState(group *metadatapb.ConsumerGroup) *groupState {
 	if state.state == groupStatePreparingRebalance || state.state == groupStateCompletingRebalance {
 		state.rebalanceDeadline = time.Now().Add(state.rebalanceTimeout)
 	}
+	if state.state == groupStatePreparingRebalance {
+		// Which members had already rejoined this generation is not persisted.
+		// Treat none of them as rejoined: the rebalance completes only after
+		// every member has joined the restored coordinator.
+		for _, member := range state.members {
+			member.joinGeneration = 0
+		}
+	}
 	state.ensureLeader()
 	return state
 }
